@@ -344,7 +344,7 @@ func scenarios() []hx.Scenario {
 	// (a') longer histories over a small gap alphabet: a first busy period that
 	// reaches MaxDelay, an idle gap, then a second busy period (the window must
 	// start again from InitialDelay)
-	for _, c := range []cfg{{2, 8, 0}, {1, 4, 0}, {1, 4, 2}} {
+	for _, c := range []cfg{{2, 8, 0}, {1, 4, 0}, {1, 4, 2}, {1, 4, 4}} {
 		for _, g := range seqs([]int{1, 2, 9}, 6) {
 			if len(g) < 5 {
 				continue
